@@ -18,45 +18,11 @@ optional scopes, count outputs), @recurse (with implicit coercion), tags importe
 coercions, edge parameters.  The declared types follow `get_output_type`: the first component of
 `validQ` (`Model/Args.lean`) says `null` iff that level is nullable, lists element-wise.
 -/
-import TrustfallModel.Proofs.InterpInvRefine
-import TrustfallModel.Proofs.InterpInv
+import TrustfallModel.Proofs.InterpInvMain
 
 namespace TF.C13
 open TF TF.Engine
 open TF.Frontend (SchemaView)
-
-/-- the analysed world of one execution, with the guard `G` -/
-def world (S : SchemaView) (D : Data) (ir : IRQuery) (args : List (Name × Value)) (G : Prop)
-    (hconf : Conforms S D = true) (hargs : ArgsOK ir args = true) : World where
-  S := S
-  D := D
-  args := args
-  vars := ir.variables
-  G := G
-  conf := hconf
-  hargs := fun _ _ hm => argsOK_arg hargs hm
-
-theorem knownSite_not_contract {s : String} (h : knownSite s = true) : isContractSite s = false := by
-  simp only [knownSite, Bool.or_eq_true, beq_iff_eq] at h
-  rcases h with ((rfl | rfl) | rfl) | rfl <;> decide +kernel
-
-/-- What the invariant proof gives about an execution under the plain table adapter: the result
-is the same as under the contract-checking adapter, for which `interpret_safe` holds. -/
-theorem exec_safe (S : SchemaView) (D : Data) (ir : IRQuery) (args : List (Name × Value)) (G : Prop)
-    (hwf : WFq ir = true) (hso : SchemaOK S ir = true) (hargs : ArgsOK ir args = true)
-    (hconf : Conforms S D = true) (hnt : G → NoKnownTrigger D ir args = true) :
-    interpret (Env.checked S D args) ir = interpret (Env.ofData D args) ir ∧
-    Safe G (fun rows => ∀ r ∈ rows, RowOK ir.rootComponent r) (interpret (Env.ofData D args) ir) := by
-  have hs := interpret_safe (world S D ir args G hconf hargs) ir rfl hwf hso hnt
-  have hr := interpret_checked_refines S D args ir
-  have heq : interpret (Env.checked S D args) ir = interpret (Env.ofData D args) ir := by
-    rcases hr with h | ⟨s, h, hc⟩
-    · exact h
-    · have hs' : Safe G _ (interpret (Env.checked S D args) ir) := hs
-      rw [h] at hs'
-      have := knownSite_not_contract hs'.1
-      rw [hc] at this; cases this
-  exact ⟨heq, heq ▸ hs⟩
 
 /-- Each result row contains exactly the output names the compiled query declares (in the order
 of `IndexedQuery::outputs`, a `BTreeMap`). -/
@@ -65,7 +31,7 @@ theorem rows_keys (S : SchemaView) (D : Data) (ir : IRQuery) (args : List (Name 
     (hconf : Conforms S D = true) {rows : List Row}
     (h : interpret (Env.ofData D args) ir = .ok rows) :
     ∀ r ∈ rows, r.map (·.1) = ir.outputs.map (·.name) := by
-  have hs := (exec_safe S D ir args False hwf hso hargs hconf (fun g => g.elim)).2
+  have hs := (Engine.exec_safe S D ir args False hwf hso hargs hconf (fun g => g.elim)).2
   rw [h] at hs
   intro r hr
   rw [(hs r hr).1, IRQuery.outputs, map_name_foldr_insertOutSorted]
@@ -76,7 +42,7 @@ theorem rows_typed (S : SchemaView) (D : Data) (ir : IRQuery) (args : List (Name
     (hconf : Conforms S D = true) {rows : List Row}
     (h : interpret (Env.ofData D args) ir = .ok rows) :
     ∀ r ∈ rows, ∀ p ∈ r, ∃ o ∈ ir.outputs, o.name = p.1 ∧ validQ o.ty p.2 = true := by
-  have hs := (exec_safe S D ir args False hwf hso hargs hconf (fun g => g.elim)).2
+  have hs := (Engine.exec_safe S D ir args False hwf hso hargs hconf (fun g => g.elim)).2
   rw [h] at hs
   intro r hr p hp
   obtain ⟨d, hd, hdn, hdv⟩ := (hs r hr).2 p hp
@@ -89,7 +55,8 @@ levels); otherwise it keeps the property's own nullability -/
 theorem declared_nullable_in_optional (vid : Vid) (base : Name) (b : Bool) (rest : List Bool)
     (opt : List Vid) (folds : List Bool) (h : opt.contains vid = true) :
     outputType vid ⟨base, b :: rest⟩ opt folds = ⟨base, folds ++ true :: rest⟩ := by
-  simp [outputType, h]
+  unfold outputType
+  rw [if_pos h]
 
 /-- one list level per enclosing fold, outermost first, each nullable iff that fold hangs off an
 optional vertex -/
@@ -102,15 +69,15 @@ valid values of `Int!` are integers -/
 theorem declared_count (fromVid : Vid) (opt : List Vid) (folds : List Bool)
     (h : opt.contains fromVid = false) :
     outputType fromVid intNonNull opt folds = ⟨"Int", folds ++ [false]⟩ := by
-  simp [outputType, intNonNull, h]
+  unfold outputType
+  rw [if_neg (by rw [h]; simp)]
+  rfl
 
 theorem count_value_is_integer {v : Value} (h : validQ ⟨"Int", [false]⟩ v = true) :
     (∃ i, v = .int64 i) ∨ (∃ u, v = .uint64 u) := by
   cases v <;> simp [validQ, validNulls] at h
   · exact Or.inl ⟨_, rfl⟩
   · exact Or.inr ⟨_, rfl⟩
-
-/-! ### non-vacuity: a query with an output inside @optional and a fold -/
 
 end TF.C13
 
